@@ -9,12 +9,23 @@ package main
 // injectors in a row, the first of which may fail, with and without an init function that returns
 // error, and a per-invocation consumer of error.
 //
+// nooutmotif (C05/C06): injectors without outputs (side effects only) carrying Cacheable-family
+// annotations, listed among per-invocation providers; several invocations.
+//
+// unusedmotif (C13/C16): a wrapper or injector that receives / takes nject.Unused and may be
+// excluded (an input nobody provides), next to ordinary providers.
+//
 // shadowmotif (C15): stacks of two to four wrappers returning the same type, some of them marked
 // AllowReturnShadowing for it, over a final function that may or may not return that type.
 
 func init() {
 	streams["femotif"] = &stream{gen: func(r *rng) string { return genFallibleMotif(r).encode() }, run: runChain}
 	streams["shadowmotif"] = &stream{gen: func(r *rng) string { return genShadowMotif(r).encode() }, run: runChain}
+	streams["nooutmotif"] = &stream{gen: func(r *rng) string { return genNoOutMotif(r).encode() }, run: runChain}
+	streams["unusedmotif"] = &stream{gen: func(r *rng) string { return genUnusedMotif(r).encode() }, run: runChain}
+	streams["d6loose"] = &stream{gen: func(r *rng) string { return genD6Loose().encode() }, run: runChain}
+	streams["d6looseprune"] = &stream{gen: func(r *rng) string { return prunePair(genD6Loose().encode()) }, run: runPair}
+	streams["unusedprune"] = &stream{gen: func(r *rng) string { return prunePair(genUnusedMotif(r).encode()) }, run: runPair}
 }
 
 func motifTypes(r *rng, n int) []int {
@@ -80,13 +91,29 @@ func genFallibleMotif(r *rng) *ccase {
 		if r.chance(1, 2) {
 			f.outs = []int{teT, ts[1]}
 		}
-		switch r.intn(6) {
+		switch r.intn(8) {
 		case 0, 1, 2:
 			f.annots |= aMemoize
 		case 3:
 			f.annots |= aCacheable
 		case 4:
 			f.annots |= aMemoize | aCacheable
+		case 5:
+			f.annots |= aMemoize | aMustCache // must be static but depends on an invoke argument: Bind fails
+		case 6:
+			f.annots |= aMustCache
+		}
+		plain := false
+		if r.chance(1, 3) {
+			// a non-fallible sibling with the same annotations: nobody returns error then
+			f.outs = []int{ts[1]}
+			f.failmask = 0
+			plain = true
+			if len(c.provs) == 2 {
+				c.provs = c.provs[1:] // drop the wrapper that receives error
+				f.pid = 1
+				pid = 1
+			}
 		}
 		add(&cprovider{shape: 2, ins: []int{ts[1]}, outs: []int{ts[2]}})
 		fin := add(&cprovider{shape: 2, ins: []int{ts[2]}, outs: []int{ts[3]}})
@@ -94,6 +121,9 @@ func genFallibleMotif(r *rng) *ccase {
 			fin.ins = append(fin.ins, ts[1])
 		}
 		c.invOuts = []int{ts[3], errT}
+		if plain {
+			c.invOuts = []int{ts[3]}
+		}
 	} else {
 		// (b) several fallible static injectors in a row
 		if r.chance(1, 2) {
@@ -178,5 +208,135 @@ func genShadowMotif(r *rng) *ccase {
 	c.provs = append(c.provs, fin)
 	c.invOuts = append(c.invOuts, t)
 	motifSteps(r, c)
+	return c
+}
+
+func genNoOutMotif(r *rng) *ccase {
+	ts := motifTypes(r, 4)
+	c := &ccase{}
+	pid := 0
+	add := func(p *cprovider) *cprovider {
+		pid++
+		p.pid = pid
+		c.provs = append(c.provs, p)
+		return p
+	}
+	if r.chance(1, 2) {
+		c.invIns = []int{ts[0]}
+	}
+	n := 2 + r.intn(3)
+	for i := 0; i < n; i++ {
+		switch r.intn(3) {
+		case 0:
+			// side-effect only, maybe annotated
+			p := add(&cprovider{shape: 2})
+			if len(c.invIns) > 0 && r.chance(1, 3) {
+				p.ins = []int{ts[0]}
+			}
+			switch r.intn(6) {
+			case 0, 1, 2:
+				p.annots |= aCacheable
+			case 3:
+				p.annots |= aMemoize
+			case 4:
+				p.annots |= aMustCache
+			}
+			if r.chance(1, 3) {
+				p.annots |= aRequired
+			}
+		case 1:
+			p := add(&cprovider{shape: 2, outs: []int{ts[1]}})
+			if r.chance(1, 2) {
+				p.annots |= aCacheable
+			}
+		default:
+			add(&cprovider{shape: 2, outs: []int{ts[2]}})
+		}
+	}
+	fin := add(&cprovider{shape: 2, outs: []int{ts[3]}})
+	if r.chance(1, 2) {
+		fin.ins = []int{ts[1]}
+	}
+	c.invOuts = []int{ts[3]}
+	c.steps = []int{1, 1}
+	if r.chance(1, 2) {
+		c.steps = append(c.steps, 1)
+	}
+	return c
+}
+
+func genUnusedMotif(r *rng) *ccase {
+	unusedT := tcOf(pUnused)
+	ts := motifTypes(r, 4)
+	c := &ccase{}
+	pid := 0
+	add := func(p *cprovider) *cprovider {
+		pid++
+		p.pid = pid
+		c.provs = append(c.provs, p)
+		return p
+	}
+	missing := ts[3] // nobody provides it
+	n := 1 + r.intn(3)
+	for i := 0; i < n; i++ {
+		switch r.intn(4) {
+		case 0:
+			// wrapper whose inner() returns Unused
+			w := add(&cprovider{shape: 3, innerOuts: []int{unusedT}, passthru: r.chance(1, 2)})
+			if r.chance(1, 2) {
+				w.ins = []int{missing}
+			}
+			if r.chance(1, 3) {
+				w.annots |= aDesired
+			}
+		case 1:
+			// injector taking Unused
+			p := add(&cprovider{shape: 2, ins: []int{unusedT}, outs: []int{ts[0]}})
+			if r.chance(1, 2) {
+				p.ins = append(p.ins, missing)
+			}
+		case 2:
+			add(&cprovider{shape: 2, outs: []int{ts[1]}})
+		default:
+			add(&cprovider{shape: 2, ins: []int{ts[1]}, outs: []int{ts[2]}})
+		}
+	}
+	fin := add(&cprovider{shape: 2})
+	if r.chance(1, 2) {
+		fin.ins = []int{ts[0]}
+	}
+	if r.chance(1, 3) {
+		fin.ins = append(fin.ins, ts[2])
+	}
+	if r.chance(1, 4) {
+		fin.ins = append(fin.ins, tcOf(pDebug))
+	}
+	motifSteps(r, c)
+	return c
+}
+
+// the shape of known finding D6f: [p2x func() T0; p1 Loose[I0](func() T?) ...] - two providers Loose
+// for the same interface with different concrete types, the nearer one's type also produced earlier
+func genD6Loose() *ccase {
+	i0 := tcOf(pI0)
+	// both T0-like types must implement I0: find two pool types implementing it
+	var impls []int
+	for _, k := range []int{pT0, pT1, pT2, pT3, pT4, pT5, pT6, pT7} {
+		if pool[k].t.Implements(tcToPool[i0].t) {
+			impls = append(impls, tcOf(k))
+		}
+	}
+	c := &ccase{}
+	if len(impls) < 2 {
+		return c
+	}
+	t1, t2 := impls[0], impls[1]
+	c.provs = []*cprovider{
+		{pid: 1, shape: 2, outs: []int{t2}},
+		{pid: 2, shape: 2, outs: []int{t1}, loose: []int{i0}},
+		{pid: 3, shape: 2, outs: []int{t2}, loose: []int{i0}},
+		{pid: 4, shape: 2, ins: []int{i0, t2}},
+	}
+	c.steps = []int{1}
 	return c
 }
